@@ -323,6 +323,69 @@ def run(F, chk):
                           "a type for a block that is of another type" % fn["name"])
     chk.floor(R6, 2)
 
+    # ------------------------------------------------------------------ R7.7 length prefixes cannot wrap
+    import intervals
+    R7 = chk.rule("R7.7", "a length or count prefix that a writer computes in a fixed-width unsigned local and adjusts arithmetically "
+                          "before streaming it cannot wrap (interval analysis of the local: the adjustment is dominated by a test that "
+                          "keeps it inside the type's range); otherwise the prefix no longer describes the bytes that follow it")
+    STREAMS = ("nifly::NiStreamReversible", "nifly::NiIStream", "nifly::NiOStream")
+    analysed = 0
+    for fn in sorted(F.fns.values(), key=lambda f: f["id"]):
+        if fn.get("tmpl") == "pattern" or not fn.get("body"):
+            continue
+        if not any(any(s_ in (p_.get("ct") or p_.get("t") or "") for s_ in ("NiOStream", "NiStreamReversible")) for p_ in fn.get("params", [])):
+            continue
+        decl = {}
+        for x in walk(fn["body"]):
+            if x["k"] == "Decl":
+                for v in x.get("vars", []):
+                    b = intervals.type_bits(v.get("t")) or intervals.type_bits(v.get("ct"))
+                    if b:
+                        decl[v["id"]] = (b, v)
+        if not decl:
+            continue
+        def uses(x, decl=decl):
+            out = []
+            if x["k"] in ("Call", "OpCall") and x.get("cls") in STREAMS:
+                for a in x.get("args", []):
+                    while is_node(a) and (a["k"] == "Cast" or (a["k"] == "Unary" and a["op"] == "&")):
+                        a = a["e"]
+                    if is_node(a) and a["k"] == "Ref" and a.get("id") in decl:
+                        out.append(a["id"])
+            return out
+
+        streamed = set()
+        for x in walk(fn["body"]):
+            streamed |= set(uses(x))
+        if not streamed:
+            continue
+        tracked = {vid: decl[vid][0] for vid in decl}  # every fixed-width unsigned local carries bounds; wraps are reported for the streamed ones
+        analysed += 1
+        A = intervals.Intervals(fn, tracked, use=uses, report=streamed)
+        wraps = A.run()
+        reached = {}
+        for un, vid, wi in A.tainted_uses:
+            reached.setdefault(id(wraps[wi][0]), un)
+        for x in walk(fn["body"]):
+            t_ = x["l"] if x["k"] == "Assign" and x["op"] in ("+=", "-=") else (x["e"] if x["k"] == "Unary" and x["op"] in ("++", "--") else None)
+            if not (is_node(t_) and t_["k"] == "Ref" and t_.get("id") in streamed):
+                continue
+            vid = t_["id"]
+            w = [w_ for w_ in wraps if w_[0] is x]
+            un = reached.get(id(x))
+            bad = bool(w) and un is not None
+            v = decl[vid][1]
+            chk.instance(R7, ok=not bad, sample={"fn": fn["name"], "local": v["name"], "type": v.get("t"), "update": show(x),
+                                                 "can_wrap": bool(w), "wrapped_value_streamed": bad})
+            if bad:
+                chk.violation("R7.7", "C07/R7.7:%s:%s:%s" % (fn["name"], v["name"], v.get("t")), where(fn, x),
+                              "%s streams the %s local `%s` as a length/count (%s), but `%s` can take it from %s to %s, outside "
+                              "the type's range: the prefix wraps and no longer describes the bytes written after it, so a reader "
+                              "loses its place in the file" % (fn["name"], v.get("t"), v["name"], where(fn, un), show(x),
+                                                               list(w[0][2]), list(w[0][3])))
+    chk.extra["R7.7_functions_analysed"] = analysed
+    chk.floor(R7, 3)
+
     chk.assumptions += ["sizes are re-measured on every save and never taken from the model, so R7.1 + R7.3 decide the size table "
                         "clause up to uint32 overflow", "header Get/Put layout agreement is decided under C01 (R1.3)"]
     chk.extra["explanation"] = ("byte-accounting pairing in NiOStream, single-writer census, save-protocol typestate and string-"
